@@ -706,6 +706,12 @@ def line_level_validation(chk, meta, out):
             # has added up to more than a line's length by then. Same line structure, so the same lines are expected
             want = [w + 60 for w in want]
             full = (HEADER + '// filler line\n' * 60 + text).replace('\n', '\r\n')
+        else:
+            # the other ones a second time behind leading white space (blank lines and a run of blanks longer than any indentation): offsets
+            # and text must stay those of the file as it is on disk, whatever the parser is handed
+            lead = '\n\n\n' + ' ' * 40 + '\t\n'
+            jobs.append(['analyze', oracle.CATEGORY[detector], detector, chk.native.file(lead + full)])
+            exp.append((detector, label + ' behind leading white space', lead + full, [w + 4 for w in want]))
         jobs.append(['analyze', oracle.CATEGORY[detector], detector, chk.native.file(full)])
         exp.append((detector, label, full, want))
     for (detector, label, full, want), r in zip(exp, chk.native.run(jobs)):
